@@ -350,6 +350,23 @@ func runC19(c *Ctx) {
 		k.definiteNil(f)
 		k.preconditions(f)
 	}
+	// positive examples for the rules whose expected count on a healthy tree is zero (the detector is alive)
+	if w, err := buildWitness(c.Fset); err != nil {
+		c.Check("C19.H", "positive-example:build", false, 0, "built-in positive examples could not be built: "+err.Error())
+	} else {
+		run := func(rule string, scan func(k *c19, f *ssa.Function), fns ...string) int {
+			wc := c.witnessCtx()
+			wk := &c19{c: wc, nf: map[string]bool{}, counts: map[string]int{}, requires: map[*ssa.Function]map[int]bool{}}
+			for _, n := range fns {
+				if f := w.fns[n]; f != nil {
+					scan(wk, f)
+				}
+			}
+			return failed(wc, rule)
+		}
+		c.alive("C19.H", "interface-keyed map / interface{} == interface{}", run("C19.H", (*c19).hashing, "hashWitness", "eqWitness") == 2, run("C19.H", (*c19).hashing, "hashOK") == 0)
+		c.alive("C19.Z", "value tested nil, then dereferenced", run("C19.Z", (*c19).definiteNil, "nilUseWitness") == 1, run("C19.Z", (*c19).definiteNil, "hashOK") == 0)
+	}
 	// reviewed table: every entry must still bind to a construct (stale entries are reported, not fatal)
 	var rv []string
 	for fn, m := range reviewedPanicSites {
